@@ -345,7 +345,7 @@ def c_mobility_tables(site, fx):
     ln = deep_strip(site.ops[0])
     ix = site.ops[1]
     if not (isinstance(ln, tuple) and ln[0] == "const"):
-        return False
+        return _mobility_generic(site, fx)
     n = ln[1]
     # a count computed by a small helper of the eval module: look at the helper's own (single, unconditional) return expression
     from facts import decision_paths, substitute_args
@@ -368,10 +368,53 @@ def c_mobility_tables(site, fx):
     return ub < n
 
 
+def _mobility_generic(site, fx):
+    """the count indexes a table whose length is a const generic of a helper that also receives the attack function: decided per
+    call site of the helper - the table length from the instantiated signature, the attack set's bound from the function item or
+    the closure handed in - and discharged only if every call site is in bounds"""
+    from facts import decision_paths
+    import re as _re
+    b = site.body
+    d = deep_strip(site.ops[1])
+    while isinstance(d, tuple) and d and d[0] == "cast":
+        d = deep_strip(d[1])
+    if not (isinstance(d, tuple) and d and d[0] == "call" and str(d[1]).endswith("Bitboard::count")):
+        return False
+    fcalls = [x for x in walk(d[2][0]) if isinstance(x, tuple) and x and x[0] == "call" and isinstance(x[1], str) and _re.search(r"Fn(Mut|Once)?(<[^>]*>)?>?::call(_mut|_once)?$", x[1])]
+    params = set()
+    for x in fcalls:
+        a0 = deep_strip(x[2][0]) if x[2] else None
+        if isinstance(a0, tuple) and len(a0) >= 2 and a0[0] == "arg":
+            params.add(a0[1])
+    if len(params) != 1:
+        return False
+    pi = params.pop()
+    callers = [c for c in fx.callers_of(lambda nm: fx.body(nm) is not None and fx.body(nm).name == b.name) if "::tests::" not in c[0].name]
+    if not callers:
+        return False
+    for (cb, bb, t) in callers:
+        lens = set(_re.findall(r"; (\d+)\]", str(t["func"].get("ty", ""))))
+        if len(lens) != 1 or pi > len(t["args"]):
+            return False
+        n = int(lens.pop())
+        fa = deep_strip(cb.expr(t["args"][pi - 1], expand_named=True, at=bb))
+        fb = None
+        if isinstance(fa, tuple) and fa and fa[0] == "fn":
+            fb = ATTACK_SET_MAX.get(str(fa[1]).split("::")[-1]) if "movegen::tables" in str(fa[1]) else None
+        elif isinstance(fa, tuple) and fa and fa[0] == "agg" and str(fa[1]).startswith("closure:"):
+            clb = fx.body(str(fa[1])[len("closure:"):])
+            hp = [p for p in decision_paths(clb, 8) if p[1] is not None] if clb is not None else []
+            if len(hp) == 1:
+                fb = popcount_ub(hp[0][1])
+        if fb is None or popcount_ub(d[2][0], fn_bound=fb) >= n:
+            return False
+    return True
+
+
 ATTACK_SET_MAX = {"knight_attacks": 8, "king_attacks": 8, "bishop_attacks": 13, "rook_attacks": 14, "pawn_attacks": 2, "pawn_attack": 2}
 
 
-def popcount_ub(e):
+def popcount_ub(e, fn_bound=None):
     """Upper bound of the number of squares in a bitboard expression: attack sets by piece geometry, `a & b` <= min, `a | b` and
     `a ^ b` <= sum, anything else (complements, board sets, mutated locals - which expression expansion shows as their
     initial value) 64."""
@@ -381,9 +424,11 @@ def popcount_ub(e):
         if "movegen::tables" in d[1] and last in ATTACK_SET_MAX:
             return ATTACK_SET_MAX[last]
         if d[1].endswith("BitAnd>::bitand") and len(d[2]) == 2:
-            return min(popcount_ub(d[2][0]), popcount_ub(d[2][1]))
+            return min(popcount_ub(d[2][0], fn_bound), popcount_ub(d[2][1], fn_bound))
         if (d[1].endswith("BitOr>::bitor") or d[1].endswith("BitXor>::bitxor")) and len(d[2]) == 2:
-            return min(64, popcount_ub(d[2][0]) + popcount_ub(d[2][1]))
+            return min(64, popcount_ub(d[2][0], fn_bound) + popcount_ub(d[2][1], fn_bound))
+        if fn_bound is not None and re.search(r"Fn(Mut|Once)?(<[^>]*>)?>?::call(_mut|_once)?$", d[1]):
+            return fn_bound  # the attack function handed to a generic helper, bounded per call site
         if d[1].endswith("Square::bb"):
             return 1
     return 64
